@@ -290,29 +290,45 @@ fn period(len: u16, seed: u64) -> CaseResult {
 fn period_ty(ty: u8, len: u16, seed: u64) -> CaseResult {
     const W: usize = 8192;
     let len = len.clamp(2, 120);
-    let mut r = Rng::from_seed(seed);
     let name = ["u16", "u8", "i8", "u32", "i32", "u64", "i64", "usize", "isize"][ty as usize % 9];
-    let s: Vec<u64> = (0..W)
-        .map(|_| match ty % 9 {
-            0 => r.next::<u16, _>(0..len) as u64,
-            1 => r.next::<u8, _>(0..len as u8) as u64,
-            2 => (r.next::<i8, _>(-3..(len as i8 - 3)) + 3) as u64,
-            3 => r.next::<u32, _>(7..=(len as u32 + 6)) as u64 - 7,
-            4 => (r.next::<i32, _>(-1000..(len as i32 - 1000)) + 1000) as u64,
-            5 => r.next::<u64, _>(..len as u64),
-            6 => (r.next::<i64, _>(-5..=(len as i64 - 6)) + 5) as u64,
-            7 => r.next::<usize, _>(0..len as usize) as u64,
-            _ => (r.next::<isize, _>(-9..(len as isize - 9)) + 9) as u64,
-        })
-        .collect();
-    vensure!(s.iter().all(|&x| x < len as u64), "member", "a draw of type {} from a range of length {} fell outside it", name, len);
-    for p in 1..=2048usize {
-        if (0..W - p).all(|i| s[i] == s[i + p]) {
-            return Err(Violation::new("period", format!("8192 consecutive {} draws from a range of length {} with seed {} repeat with period {} (first values {:?})", name, len, seed, p, &s[..12])));
+    // mix 0: the judged draws alone; mix 1 / 2: one u64 / one f64 draw of another range between any two judged draws (a caller
+    // who interleaves); the judged sub-sequence must have no short period in any of the three streams
+    for mix in 0..3u8 {
+        let mut r = Rng::from_seed(seed);
+        let s: Vec<u64> = (0..W)
+            .map(|_| {
+                match mix {
+                    1 => {
+                        let _ = r.next::<u64, _>(..);
+                    }
+                    2 => {
+                        let _ = r.next::<f64, _>(0.0..1.0);
+                    }
+                    _ => {}
+                }
+                match ty % 9 {
+                    0 => r.next::<u16, _>(0..len) as u64,
+                    1 => r.next::<u8, _>(0..len as u8) as u64,
+                    2 => (r.next::<i8, _>(-3..(len as i8 - 3)) + 3) as u64,
+                    3 => r.next::<u32, _>(7..=(len as u32 + 6)) as u64 - 7,
+                    4 => (r.next::<i32, _>(-1000..(len as i32 - 1000)) + 1000) as u64,
+                    5 => r.next::<u64, _>(..len as u64),
+                    6 => (r.next::<i64, _>(-5..=(len as i64 - 6)) + 5) as u64,
+                    7 => r.next::<usize, _>(0..len as usize) as u64,
+                    _ => (r.next::<isize, _>(-9..(len as isize - 9)) + 9) as u64,
+                }
+            })
+            .collect();
+        let how = ["", " (one u64 draw between any two of them)", " (one f64 draw between any two of them)"][mix as usize];
+        vensure!(s.iter().all(|&x| x < len as u64), "member", "a draw of type {} from a range of length {} fell outside it", name, len);
+        for p in 1..=2048usize {
+            if (0..W - p).all(|i| s[i] == s[i + p]) {
+                return Err(Violation::new("period", format!("8192 consecutive {} draws from a range of length {} with seed {}{} repeat with period {} (first values {:?})", name, len, seed, how, p, &s[..12])));
+            }
         }
-    }
-    if let Some((d, o, p)) = decimated_period(&s) {
-        return Err(Violation::new("period/every-dth-draw", format!("{} draws from a range of length {} with seed {}: every {}-th draw (starting at draw {}) repeats with period {}", name, len, seed, d, o, p)));
+        if let Some((d, o, p)) = decimated_period(&s) {
+            return Err(Violation::new("period/every-dth-draw", format!("{} draws from a range of length {} with seed {}{}: every {}-th draw (starting at draw {}) repeats with period {}", name, len, seed, how, d, o, p)));
+        }
     }
     let mut st = CaseStats::default();
     st.nontrivial = true;
@@ -581,7 +597,7 @@ fn main() {
         seeds.push(pr.next());
     }
     let periods: Vec<Case> = [2u16, 3, 4, 8, 16, 64, 256, 0, 6, 10, 100].iter().flat_map(|&len| seeds.iter().map(move |&seed| Case::Period { len, seed })).collect();
-    ctx.exhaustive("non-periodicity", "rand-case", "lengths 2,3,4,6,8,10,16,64,100,256 and the full u8 range x 18+ seeds, 8192-draw windows", false, periods, run_case);
+    ctx.exhaustive("non-periodicity", "rand-case", "lengths 2,3,4,6,8,10,16,64,100,256 and the full u8 range x 18+ seeds, 8192-draw windows; full period <= 2048 and period <= 512 of every d-th draw, d = 2..4", false, periods, run_case);
     let mut pt = Vec::new();
     for ty in 1..9u8 {
         for len in [2u16, 3, 4, 8, 16, 64, 6, 100] {
@@ -590,7 +606,7 @@ fn main() {
             }
         }
     }
-    ctx.exhaustive("non-periodicity-by-type", "rand-case", "u8, i8, u32, i32, u64, i64, usize, isize draws x range lengths 2,3,4,6,8,16,64,100 (several range forms) x 6 seeds", false, pt, run_case);
+    ctx.exhaustive("non-periodicity-by-type", "rand-case", "u8, i8, u32, i32, u64, i64, usize, isize draws x range lengths 2,3,4,6,8,16,64,100 (several range forms) x 6 seeds; each stream alone and with one u64 / one f64 draw between any two judged draws; full period <= 2048 and period <= 512 of every d-th draw, d = 2..4", false, pt, run_case);
     let mut sl = Vec::new();
     for k in 1..=17u32 {
         for d in [-1i64, 0, 1] {
